@@ -1,90 +1,252 @@
-From TxV Require Import Core.Base Gen.SrcFs Model.Fs.
+From TxV Require Import Core.Base Model.FsDefs Gen.SrcFs Model.Fs.
+Require Import Lia.
 
-Lemma write_all_ok : forall chunks idx acc fl,
-  (forall k p, fl <> AtWrite k p) -> write_all chunks idx fl acc = (acc ++ map Chunk chunks, false).
+(* bookkeeping of the injected low-level failure: it has not fired before event n / it fires before event T *)
+Definition ok_before (fl : failure) (n : nat) : Prop := match fl with AtFlush e _ _ => n <= e | _ => True end.
+Definition fired (fl : failure) (T : nat) : Prop := match fl with AtFlush e _ _ => e < T | _ => False end.
+Definition nonempty {A} (l : list A) : bool := match l with [] => false | _ => true end.
+Definition b2n (b : bool) : nat := if b then 1 else 0.
+
+Lemma fails_true : forall fl n, ok_before fl n -> fails fl n = true -> fired fl (S n).
 Proof.
-  induction chunks as [|c r IH]; intros idx acc fl H; cbn [write_all map].
-  - rewrite app_nil_r. reflexivity.
-  - destruct fl; try (rewrite IH by assumption; rewrite <- app_assoc; reflexivity).
-    exfalso. apply (H k partial). reflexivity.
+  intros fl n Hb Hf. destruct fl as [| |e pers part| |]; cbn in *; try discriminate.
+  destruct pers; [apply Nat.leb_le in Hf | apply Nat.eqb_eq in Hf]; lia.
 Qed.
 
-Lemma write_all_fail_free : forall chunks idx acc k p,
-  snd (write_all chunks idx (AtWrite k p) acc) = false ->
-  write_all chunks idx (AtWrite k p) acc = (acc ++ map Chunk chunks, false).
+Lemma fails_false : forall fl n, ok_before fl n -> fails fl n = false -> ok_before fl (S n).
 Proof.
-  induction chunks as [|c r IH]; intros idx acc k p H; cbn [write_all map] in *.
-  - rewrite app_nil_r. reflexivity.
-  - destruct (Nat.eqb k idx); [discriminate|]. rewrite IH by assumption. rewrite <- app_assoc. reflexivity.
+  intros fl n Hb Hf. destruct fl as [| |e pers part| |]; cbn in *; try exact I.
+  destruct pers; [apply Nat.leb_gt in Hf | apply Nat.eqb_neq in Hf]; lia.
 Qed.
 
-(* The exporters' protocol is the atomic one. *)
-Lemma protocol_atomic : writes_to_temp = true /\ replace_after_close = true /\ removes_temp_on_error = true.
-Proof. repeat split; reflexivity. Qed.
+Lemma fired_mono : forall fl T T', fired fl T -> T <= T' -> fired fl T'.
+Proof. intros fl T T' H Hle. destruct fl; cbn in *; try contradiction. lia. Qed.
 
-(* all-or-nothing: whatever the failure point, afterwards the target is either complete or
+Lemma ok_fired_absurd : forall fl T, ok_before fl T -> fired fl T -> False.
+Proof. intros fl T H1 H2. destruct fl; cbn in *; try contradiction. lia. Qed.
+
+Lemma nonempty_snoc : forall (l : list nat) c, nonempty (l ++ [c]) = true.
+Proof. intros l c. destruct l; reflexivity. Qed.
+
+(* one low-level write while the data goes to the temporary name: the target is not touched *)
+Lemma raw_event_spec : forall fl o tw keep c,
+  h_loc (o_h o) = AtTemp -> temp (o_disk o) = Some c -> ok_before fl (o_ev o) ->
+  forall o' raised, raw_event fl o tw keep = (o', raised) ->
+  target (o_disk o') = target (o_disk o) /\ h_loc (o_h o') = AtTemp /\ o_ev o' = S (o_ev o) /\
+  (exists c', temp (o_disk o') = Some c' /\ (raised = false -> c' = c ++ map Chunk tw)) /\
+  (raised = false -> pending (o_h o') = keep /\ ok_before fl (S (o_ev o))) /\
+  (raised = true -> fired fl (S (o_ev o))).
+Proof.
+  intros fl o tw keep c Hl Ht Hb o' raised E. unfold raw_event in E. rewrite Hl in E.
+  destruct (fails fl (o_ev o)) eqn:F; inversion E; subst o' raised; clear E; cbn [o_disk o_h o_ev h_loc pending].
+  - split; [destruct (leaves_part fl); [unfold append_at; rewrite Ht|]; reflexivity|].
+    split; [reflexivity|]. split; [reflexivity|].
+    split; [destruct (leaves_part fl); [unfold append_at; rewrite Ht; cbn [temp]|]; eexists; (split; [eassumption || reflexivity | discriminate])|].
+    split; [discriminate|]. intros _. apply fails_true; assumption.
+  - unfold append_at. rewrite Ht. cbn [target temp].
+    split; [reflexivity|]. split; [reflexivity|]. split; [reflexivity|].
+    split; [eexists; split; [reflexivity|reflexivity]|].
+    split; [intros _; split; [reflexivity | apply fails_false; assumption] | discriminate].
+Qed.
+
+(* the generator's writes while the data goes to the temporary name *)
+Lemma write_loop_spec : forall chunks sched fl o c,
+  h_loc (o_h o) = AtTemp -> temp (o_disk o) = Some c -> ok_before fl (o_ev o) ->
+  forall o' raised, write_loop chunks sched fl o = (o', raised) ->
+  target (o_disk o') = target (o_disk o) /\ h_loc (o_h o') = AtTemp /\
+  (exists c', temp (o_disk o') = Some c' /\
+     (raised = false -> c' ++ map Chunk (pending (o_h o')) = c ++ map Chunk (pending (o_h o)) ++ map Chunk chunks)) /\
+  (raised = false -> ok_before fl (o_ev o') /\
+     o_ev o' + b2n (nonempty (pending (o_h o'))) = o_ev o + n_events_from chunks sched (nonempty (pending (o_h o)))) /\
+  (raised = true -> fired fl (o_ev o + n_events_from chunks sched (nonempty (pending (o_h o))))).
+Proof.
+  induction chunks as [|c0 r IH]; intros sched fl o c Hl Ht Hb o' raised E; cbn [write_loop n_events_from] in *.
+  - inversion E; subst o' raised. split; [reflexivity|]. split; [assumption|].
+    split; [exists c; split; [assumption | intros _; cbn [map]; rewrite app_nil_r; reflexivity]|].
+    split; [intros _; split; [assumption | destruct (pending (o_h o)); reflexivity] | discriminate].
+  - destruct (hd Buf sched).
+    + (* Buf *)
+      specialize (IH (tl sched) fl (buffer c0 o) c Hl Ht Hb o' raised E).
+      cbn [buffer o_disk o_h o_ev pending h_loc] in IH. rewrite nonempty_snoc in IH.
+      destruct IH as [I1 [I2 [[c' [I3 I4]] [I5 I6]]]].
+      split; [assumption|]. split; [assumption|].
+      split; [exists c'; split; [assumption|]; intro Hr; rewrite (I4 Hr), map_app, <- !app_assoc; reflexivity|].
+      split; assumption.
+    + (* FlushAll *)
+      destruct (raw_event fl o (pending (o_h o) ++ [c0]) []) as [o1 r1] eqn:R.
+      destruct (raw_event_spec fl o _ _ c Hl Ht Hb o1 r1 R) as [R1 [R2 [R3 [[c1 [R4 R5]] [R6 R7]]]]].
+      destruct r1.
+      * inversion E; subst o' raised.
+        split; [assumption|]. split; [assumption|].
+        split; [exists c1; split; [assumption | discriminate]|].
+        split; [discriminate|]. intros _. eapply fired_mono; [apply R7; reflexivity | lia].
+      * destruct (R6 eq_refl) as [Rp Rb]. specialize (R5 eq_refl).
+        assert (Hb1 : ok_before fl (o_ev o1)) by (rewrite R3; assumption).
+        specialize (IH (tl sched) fl o1 c1 R2 R4 Hb1 o' raised E). rewrite Rp in IH. cbn [nonempty] in IH.
+        destruct IH as [I1 [I2 [[c' [I3 I4]] [I5 I6]]]].
+        split; [congruence|]. split; [assumption|].
+        split; [exists c'; split; [assumption|]; intro Hr; rewrite (I4 Hr), R5, map_app; cbn [map app]; rewrite <- !app_assoc; reflexivity|].
+        split.
+        -- intro Hr. destruct (I5 Hr) as [J1 J2]. split; [assumption|]. rewrite J2, R3. lia.
+        -- intro Hr. eapply fired_mono; [apply (I6 Hr) | rewrite R3; lia].
+    + (* FlushKeep *)
+      destruct (raw_event fl o (pending (o_h o)) [c0]) as [o1 r1] eqn:R.
+      destruct (raw_event_spec fl o _ _ c Hl Ht Hb o1 r1 R) as [R1 [R2 [R3 [[c1 [R4 R5]] [R6 R7]]]]].
+      destruct r1.
+      * inversion E; subst o' raised.
+        split; [assumption|]. split; [assumption|].
+        split; [exists c1; split; [assumption | discriminate]|].
+        split; [discriminate|]. intros _. eapply fired_mono; [apply R7; reflexivity | lia].
+      * destruct (R6 eq_refl) as [Rp Rb]. specialize (R5 eq_refl).
+        assert (Hb1 : ok_before fl (o_ev o1)) by (rewrite R3; assumption).
+        specialize (IH (tl sched) fl o1 c1 R2 R4 Hb1 o' raised E). rewrite Rp in IH. cbn [nonempty] in IH.
+        destruct IH as [I1 [I2 [[c' [I3 I4]] [I5 I6]]]].
+        split; [congruence|]. split; [assumption|].
+        split; [exists c'; split; [assumption|]; intro Hr; rewrite (I4 Hr), R5; cbn [map app]; rewrite <- !app_assoc; reflexivity|].
+        split.
+        -- intro Hr. destruct (I5 Hr) as [J1 J2]. split; [assumption|]. rewrite J2, R3. lia.
+        -- intro Hr. eapply fired_mono; [apply (I6 Hr) | rewrite R3; lia].
+Qed.
+
+(* `with open(tmp, 'w') as f: write(f)` from a state without an open file: the target is not touched, the
+   file is closed, and without an exception the temporary file holds the complete output *)
+Lemma open_write_spec : forall f chunks sched fl, writes_to_temp = true -> fl <> AtOpen ->
+  forall st raised, exec (POpen PWrite) chunks sched fl (init f) = (st, raised) ->
+  hnd st = None /\ target (disk st) = target f /\
+  (exists c, temp (disk st) = Some c /\ (raised = false -> c = complete chunks)) /\
+  (raised = false -> fl <> AtClose /\ ok_before fl (n_events chunks sched)) /\
+  (raised = true -> fl = AtClose \/ fired fl (n_events chunks sched)).
+Proof.
+  intros f chunks sched fl Hw Hno st raised E.
+  assert (E' : (let '(st1, r1) := exec PWrite chunks sched fl (open_file (init f)) in
+                let '(st2, r2) := close fl st1 in (st2, (r1 || r2)%bool)) = (st, raised)).
+  { destruct fl; try exact E. exfalso. apply Hno. reflexivity. }
+  clear E. unfold open_file in E'. rewrite Hw in E'. cbn [exec init disk hnd ev] in E'.
+  set (o0 := opened _ _) in E'.
+  destruct (write_loop chunks sched fl o0) as [o1 r1] eqn:W.
+  assert (Hb0 : ok_before fl (o_ev o0)) by (destruct fl; cbn; try exact I; lia).
+  destruct (write_loop_spec chunks sched fl o0 [] eq_refl eq_refl Hb0 o1 r1 W) as [W1 [W2 [[c1 [W3 W4]] [W5 W6]]]].
+  cbn [o0 opened o_disk o_h o_ev target disk ev hnd pending nonempty map app Nat.add] in W1, W4, W5, W6.
+  unfold close in E'. cbn [still_open hnd] in E'. unfold opened, still_open in E'. cbn [disk ev hnd] in E'.
+  destruct (pending (o_h o1)) as [|p0 pr] eqn:P.
+  - (* nothing left to flush *)
+    inversion E'; subst st raised; clear E'. cbn [hnd disk].
+    split; [reflexivity|]. split; [assumption|].
+    split.
+    { exists c1. split; [assumption|]. intro Hr. apply orb_false_iff in Hr. destruct Hr as [Hr _].
+      specialize (W4 Hr). cbn [map] in W4. rewrite app_nil_r in W4. exact W4. }
+    split.
+    + intro Hr. apply orb_false_iff in Hr. destruct Hr as [Hr Hc]. split; [intro; subst fl; discriminate|].
+      destruct (W5 Hr) as [J1 J2]. cbn [nonempty b2n] in J2. unfold n_events. rewrite <- J2, Nat.add_0_r. exact J1.
+    + intro Hr. apply orb_true_iff in Hr. destruct Hr as [Hr|Hr]; [right; apply W6; exact Hr|].
+      left. destruct fl; try discriminate. reflexivity.
+  - (* the flush inside close *)
+    set (o1' := {| o_disk := o_disk o1; o_h := o_h o1; o_ev := o_ev o1 |}) in E'.
+    destruct (raw_event fl o1' (p0 :: pr) []) as [o2 r2] eqn:R.
+    inversion E'; subst st raised; clear E'. cbn [hnd disk].
+    destruct r1.
+    + (* the writes already raised *)
+      destruct (raw_event fl o1' (p0 :: pr) []) as [o2' r2'] eqn:R' in R. inversion R; subst o2' r2'.
+      assert (Hd : target (o_disk o2) = target (o_disk o1) /\ exists c2, temp (o_disk o2) = Some c2).
+      { unfold raw_event in R'. cbn [o1' o_h o_disk o_ev] in R'. rewrite W2 in R'.
+        destruct (fails fl (o_ev o1)); inversion R'; subst o2; cbn [o_disk];
+          [destruct (leaves_part fl)|]; unfold append_at; rewrite ?W3; cbn [target temp]; (split; [reflexivity | eexists; eassumption || reflexivity]). }
+      destruct Hd as [Hd1 [c2 Hd2]].
+      split; [reflexivity|]. split; [congruence|].
+      split; [exists c2; split; [assumption | discriminate]|].
+      split; [discriminate|]. intros _. right. apply W6. reflexivity.
+    + destruct (W5 eq_refl) as [J1 J2]. cbn [nonempty b2n] in J2.
+      destruct (raw_event_spec fl o1' (p0 :: pr) [] c1 W2 W3 J1 o2 r2 R) as [R1 [R2 [R3 [[c2 [R4 R5]] [R6 R7]]]]].
+      cbn [o1' o_disk o_ev] in R1, R3, R6, R7.
+      split; [reflexivity|]. split; [congruence|].
+      split.
+      { exists c2. split; [assumption|]. intro Hr. cbn [orb] in Hr. apply orb_false_iff in Hr. destruct Hr as [Hr _].
+        rewrite (R5 Hr). specialize (W4 eq_refl). exact W4. }
+      split.
+      * intro Hr. cbn [orb] in Hr. apply orb_false_iff in Hr. destruct Hr as [Hr Hc]. split; [intro; subst fl; discriminate|].
+        destruct (R6 Hr) as [_ K]. unfold n_events. rewrite <- J2. replace (o_ev o1 + 1) with (S (o_ev o1)) by lia. exact K.
+      * intro Hr. cbn [orb] in Hr. apply orb_true_iff in Hr. destruct Hr as [Hr|Hr].
+        -- right. unfold n_events. rewrite <- J2. replace (o_ev o1 + 1) with (S (o_ev o1)) by lia. apply R7. exact Hr.
+        -- left. destruct fl; try discriminate. reflexivity.
+Qed.
+
+Lemma fl_is_open : forall fl, fl = AtOpen \/ fl <> AtOpen.
+Proof. intro fl. destruct fl; (left; reflexivity) || (right; discriminate). Qed.
+
+(* The exporters' protocol, as translated from the source. *)
+Lemma protocol_is : protocol = PTry (PSeq (POpen PWrite) PReplace) PRemoveTmp /\ writes_to_temp = true.
+Proof. split; reflexivity. Qed.
+
+(* all-or-nothing: whatever the buffering and the failure point, afterwards the target is either complete or
    exactly what it was before (absent if it was absent), and no temporary file remains *)
-Lemma write_all_raises : forall chunks idx acc k p, idx <= k -> k < idx + length chunks ->
-  snd (write_all chunks idx (AtWrite k p) acc) = true.
-Proof.
-  induction chunks as [|c r IH]; intros idx acc k p H1 H2; cbn [write_all length] in *; [lia|].
-  destruct (Nat.eqb k idx) eqn:Ek; [reflexivity|]. apply Nat.eqb_neq in Ek. apply IH; lia.
-Qed.
-
-Lemma write_all_passes : forall chunks idx acc k p, length chunks + idx <= k ->
-  snd (write_all chunks idx (AtWrite k p) acc) = false.
-Proof.
-  induction chunks as [|c r IH]; intros idx acc k p Hle; cbn [write_all]; [reflexivity|].
-  cbn [length] in Hle. replace (Nat.eqb k idx) with false by (symmetry; apply Nat.eqb_neq; lia). apply IH. lia.
-Qed.
-
-Theorem export_atomic : forall f chunks fl, temp f = None ->
-  let '(f', raised) := export f chunks fl in
+Theorem export_atomic : forall f chunks sched fl, temp f = None ->
+  let '(f', raised) := export f chunks sched fl in
   temp f' = None /\
   (if raised then target f' = target f else target f' = Some (complete chunks)) /\
-  (raised = false <-> fl = NoFailure \/ (exists k p, fl = AtWrite k p /\ length chunks <= k)).
+  (raised = false <-> fl = NoFailure \/ (exists e p q, fl = AtFlush e p q /\ n_events chunks sched <= e)).
 Proof.
-  intros f chunks fl Ht. destruct protocol_atomic as [P1 [P2 P3]].
-  unfold export, on_error, set_open. rewrite P1, P2, P3. cbn [andb].
-  destruct fl as [| |k p| |].
-  - rewrite write_all_ok by (intros; discriminate). cbn. split; [reflexivity|]. split; [reflexivity|].
-    split; [intros _; left; reflexivity | reflexivity].
-  - cbn. split; [assumption|]. split; [reflexivity|]. split; [discriminate|].
-    intros [H|[k [p [H _]]]]; discriminate.
-  - destruct (write_all chunks 0 (AtWrite k p) []) as [content raised] eqn:E.
-    destruct raised.
-    + cbn. split; [reflexivity|]. split; [reflexivity|]. split; [discriminate|].
-      intros [H|[k' [p' [H Hl]]]]; [discriminate|]. inversion H; subst k' p'.
-      pose proof (write_all_passes chunks 0 [] k p ltac:(lia)) as G. rewrite E in G. discriminate.
-    + pose proof (write_all_fail_free chunks 0 [] k p) as W. rewrite E in W. specialize (W eq_refl). inversion W; subst.
-      cbn. split; [reflexivity|]. split; [reflexivity|]. split; [|reflexivity].
-      intros _. right. exists k, p. split; [reflexivity|].
-      destruct (Nat.le_gt_cases (length chunks) k) as [H|H]; [exact H|].
-      pose proof (write_all_raises chunks 0 [] k p ltac:(lia) ltac:(lia)) as G. rewrite E in G. discriminate.
-  - rewrite write_all_ok by (intros; discriminate). cbn. split; [reflexivity|]. split; [reflexivity|].
-    split; [discriminate|]. intros [H|[k [p [H _]]]]; discriminate.
-  - rewrite write_all_ok by (intros; discriminate). cbn. split; [reflexivity|]. split; [reflexivity|].
-    split; [discriminate|]. intros [H|[k [p [H _]]]]; discriminate.
+  intros f chunks sched fl Ht. destruct protocol_is as [P1 P2].
+  unfold export, run. rewrite P1.
+  assert (Hx : forall st, exec (PTry (PSeq (POpen PWrite) PReplace) PRemoveTmp) chunks sched fl st =
+    let '(st1, raised) := (let '(sta, ra) := exec (POpen PWrite) chunks sched fl st in
+                           if ra then (sta, true) else exec PReplace chunks sched fl sta) in
+    if raised then (fst (exec PRemoveTmp chunks sched fl st1), true) else (st1, false)) by reflexivity.
+  rewrite Hx. clear Hx.
+  destruct (fl_is_open fl) as [Ho|Ho].
+  - (* open() fails *)
+    subst fl. cbn. split; [reflexivity|]. split; [reflexivity|]. split; [discriminate|].
+    intros [H|[e [p [q [H _]]]]]; discriminate.
+  - destruct (exec (POpen PWrite) chunks sched fl (init f)) as [st1 r1] eqn:E.
+    destruct (open_write_spec f chunks sched fl P2 Ho st1 r1 E) as [S1 [S2 [[c [S3 S4]] [S5 S6]]]].
+    destruct r1.
+    + (* the write block raised: the handler removes the temporary file *)
+      cbn [fst exec disk target temp].
+      split; [reflexivity|]. split; [assumption|]. split; [discriminate|].
+      intros [H|[e [p [q [H Hle]]]]]; subst fl; destruct (S6 eq_refl) as [K|K]; try discriminate; cbn in K; try contradiction; lia.
+    + destruct (S5 eq_refl) as [Hc Hb]. specialize (S4 eq_refl). subst c.
+      destruct fl as [| |e p q| |]; first [exfalso; apply Ho; reflexivity | exfalso; apply Hc; reflexivity | idtac]; cbn [exec]; rewrite ?S3; cbn [fst disk target temp].
+      * split; [reflexivity|]. split; [reflexivity|]. split; [intros _; left; reflexivity | reflexivity].
+      * split; [reflexivity|]. split; [reflexivity|]. split; [|reflexivity].
+        intros _. right. exists e, p, q. split; [reflexivity | exact Hb].
+      * split; [reflexivity|]. split; [assumption|]. split; [discriminate|].
+        intros [H|[e [p [q [H _]]]]]; discriminate.
 Qed.
 
 (* a failed run from scratch followed by a later run without --overwrite regenerates the file *)
-Theorem rerun_regenerates : forall chunks fl chunks',
+Theorem rerun_regenerates : forall chunks sched fl chunks' sched',
   let f0 := {| target := None; temp := None |} in
-  let '(f1, raised) := gen_file false f0 chunks fl in
+  let '(f1, raised) := gen_file false f0 chunks sched fl in
   raised = true ->
-  gen_file false f1 chunks' NoFailure = ({| target := Some (complete chunks'); temp := None |}, false).
+  gen_file false f1 chunks' sched' NoFailure = ({| target := Some (complete chunks'); temp := None |}, false).
 Proof.
-  intros chunks fl chunks'. cbv zeta. unfold gen_file at 1. cbn [target orb negb andb].
+  intros chunks sched fl chunks' sched'. cbv zeta. unfold gen_file at 1. cbn [target orb negb andb].
   rewrite andb_false_r. cbn [negb].
-  pose proof (export_atomic {| target := None; temp := None |} chunks fl eq_refl) as H.
-  destruct (export _ chunks fl) as [f1 raised]. destruct H as [Ht [Hg _]]. intro Hr. subst raised.
+  pose proof (export_atomic {| target := None; temp := None |} chunks sched fl eq_refl) as H.
+  destruct (export _ chunks sched fl) as [f1 raised]. destruct H as [Ht [Hg _]]. intro Hr. subst raised.
   cbn [target] in Hg. unfold gen_file. rewrite Hg. rewrite andb_false_r. cbn [negb orb].
-  pose proof (export_atomic f1 chunks' NoFailure Ht) as H2.
-  destruct (export f1 chunks' NoFailure) as [f2 r2]. destruct H2 as [Ht2 [Hg2 Hr2]].
+  pose proof (export_atomic f1 chunks' sched' NoFailure Ht) as H2.
+  destruct (export f1 chunks' sched' NoFailure) as [f2 r2]. destruct H2 as [Ht2 [Hg2 Hr2]].
   assert (r2 = false) by (apply Hr2; left; reflexivity). subst r2.
   destruct f2 as [tg tm]. cbn in *. subst. reflexivity.
 Qed.
 
 (* an existing complete file is never touched without --overwrite *)
-Lemma existing_kept c chunks fl : forall t, gen_file false {| target := Some c; temp := t |} chunks fl = ({| target := Some c; temp := t |}, false).
+Lemma existing_kept c chunks sched fl : forall t, gen_file false {| target := Some c; temp := t |} chunks sched fl = ({| target := Some c; temp := t |}, false).
 Proof. intro t. unfold gen_file. cbn. reflexivity. Qed.
+
+(* the same for a byte buffer of any capacity (the buffering of io.BufferedWriter) *)
+Corollary export_atomic_buffered : forall cap sizes f chunks fl, temp f = None ->
+  let '(f', raised) := export f chunks (sched_of_buffer cap sizes 0) fl in
+  temp f' = None /\ (if raised then target f' = target f else target f' = Some (complete chunks)).
+Proof.
+  intros cap sizes f chunks fl Ht. pose proof (export_atomic f chunks (sched_of_buffer cap sizes 0) fl Ht) as H.
+  destruct (export f chunks (sched_of_buffer cap sizes 0) fl) as [f' raised]. destruct H as [H1 [H2 _]]. split; assumption.
+Qed.
+
+(* why the order matters: the same statements with os.replace moved inside the `with open` block (before the
+   close that flushes the buffer) are not atomic - a failure of the flush at close truncates the target *)
+Definition early_replace : prog := POpen (PTry (PSeq PWrite PReplace) PRemoveTmp).
+Lemma early_replace_not_atomic : writes_to_temp = true ->
+  run early_replace {| target := None; temp := None |} [0; 1; 2] [] (AtFlush 0 true false)
+  = ({| target := Some []; temp := None |}, true).
+Proof. intro Hw. unfold run, early_replace. cbn [exec]. unfold open_file. rewrite Hw. vm_compute. reflexivity. Qed.
